@@ -275,7 +275,7 @@ def prove(ctx: Ctx, goals, rounds=2, maxdeg=6, timeout_ms=20000, extra=(), produ
     prod_lemmas = []
     if products:
         # products of pairs of non-negative facts (for ordering goals)
-        nn = [a.p for a in ineq if a.kind in ("ge", "gt")]
+        nn = [a.p for a in ineq if a.kind in ("ge", "gt") and len(a.p.t) <= 3]
         nn = nn[:40]
         for i in range(len(nn)):
             for j in range(i, len(nn)):
